@@ -69,7 +69,9 @@ def connOp (toks : List String) : String :=
       let pre : List String := (Session.writes tr).map toHex
       let okc := match res with | .ok _ => true | _ => false
       let c : GClient := ⟨.demandActive, uid, 1003, w, h, lay, none, (g "name").getD []⟩
-      let ops := (srvmsgs.splitOn ",").filter (· ≠ "") |>.map ("M" ++ ·)
+      -- `reads=k`: the client shuts down after reading only the first k server messages
+      let allOps := (srvmsgs.splitOn ",").filter (· ≠ "") |>.map ("M" ++ ·)
+      let ops := match (kv toks "reads").bind String.toNat? with | some k => allOps.take k | none => allOps
       let ins := (inputs.splitOn ",").filter (· ≠ "")
       match connSteps uid c (ops ++ ins) [] with
       | none => "bad-case"
